@@ -1849,9 +1849,12 @@ func decimal(s string) (x int, ok bool) {
 		if digit > 9 {
 			return 0, false
 		}
-		x = x*10 + int(digit)
-		if x < 0 {
-			return 0, false // underflow
+		if x > (math.MaxInt-int(digit))/10 {
+			// Too large for an int, and so for any index:
+			// saturate rather than wrap around.
+			x = math.MaxInt
+		} else {
+			x = x*10 + int(digit)
 		}
 	}
 	return x, true
